@@ -1,6 +1,7 @@
 """C02 - readers and writers never overlap; readers can share (guarded family part; deferred_guarded under C06)."""
 from vlib import engine
 from vlib.engine import ModelRun
+from checks.deferred_common import DeferredBase
 from checks.guarded_common import GuardedBase, P, X, XT, S, ST, LS, conf
 
 
@@ -64,5 +65,17 @@ class C02(GuardedBase):
 DEF = C02()
 
 
+class C02Deferred(DeferredBase):
+    pid = 'C02'
+    tags = ('C02', 'C07')
+    conf_limit = {'quick': 800, 'thorough': 20000}
+    models = {'quick': [DeferredBase.models['quick'][0]], 'thorough': DeferredBase.models['thorough'][:2]}
+    programs = {'quick': DeferredBase.programs['quick'][:2] + DeferredBase.programs['quick'][3:],
+                'thorough': DeferredBase.programs['thorough'][:2] + DeferredBase.programs['thorough'][3:6]}
+
+
+DEF2 = C02Deferred()
+
+
 def run(tier, seed):
-    return engine.run_check(DEF, tier, seed)
+    return engine.run_parts('C02', [DEF, DEF2], tier, seed)
